@@ -416,6 +416,9 @@ def update_conservation(chk, rule, mods, name_re, block_re, block_size=1024):
                 if why:
                     bad = (P, L, why)
             chk.obligation(rule, bad is None, key=(src, F.name, "conservation"), sample={"unit": src, "function": F.name, "cases": len(grid)})
+            if bad and "does not determine" in bad[2][1]:
+                chk.broke("%s: carried = %d, len = %d: %s" % (F.name, bad[0], bad[1], bad[2][1]))
+                bad = None
             if bad:
                 P, L, (I, msg) = bad
                 chk.finding(Finding(rule, src, F.name, "conservation:carried=%d,len=%d" % (P, L), "with %d byte(s) carried and len = %d: %s" % (P, L, msg), loc=I.loc() if hasattr(I, "loc") else src))
